@@ -296,6 +296,15 @@ Definition mon_C14 (o : cli_obs) : bool :=
   | None => true
   end.
 
+(** C16, files: on success the best-seen file holds the parameter set of a minimum-objective record
+    of the detailed report (sample size 1) *)
+Definition mon_C16_files (o : cli_obs) : bool :=
+  negb (exit_zero o) || negb (N.eqb (ss_of o) 1) || negb (c_rows_ok o) ||
+  match c_bestfile o, min_row (c_rows o) with
+  | Some bj, Some m => existsb (fun r => match row_val r with Some x => feq x m && jeq (row_json r) bj | None => false end) (c_rows o)
+  | _, _ => true
+  end.
+
 Definition judge_cli (o : cli_obs) : string :=
   let acc := match model_exit_zero o with
              | Some b => if Bool.eqb b (exit_zero o) then "ok" else "rej/exit"
@@ -303,5 +312,5 @@ Definition judge_cli (o : cli_obs) : string :=
              end in
   ("CLI idx=" ++ N2s (c_idx o) ++ " acc=" ++ acc ++
    " C07=" ++ OpsCheck.b2s (mon_C07 o) ++ " C14=" ++ OpsCheck.b2s (mon_C14 o) ++ " C15=" ++ OpsCheck.b2s (mon_C15 o) ++
-   " C16=" ++ OpsCheck.b2s (mon_C16 o) ++ " C03=" ++ OpsCheck.b2s (mon_C03 o) ++ " C04=" ++ OpsCheck.b2s (mon_C04 o) ++ " C06=" ++ OpsCheck.b2s (mon_C06 o) ++ " C11=" ++ OpsCheck.b2s (mon_C11 o) ++ " C08=" ++ OpsCheck.b2s (mon_C08 o) ++ " code=" ++ (if exit_zero o then "0" else "nz") ++
+   " C16=" ++ OpsCheck.b2s (mon_C16 o && mon_C16_files o) ++ " C03=" ++ OpsCheck.b2s (mon_C03 o) ++ " C04=" ++ OpsCheck.b2s (mon_C04 o) ++ " C06=" ++ OpsCheck.b2s (mon_C06 o) ++ " C11=" ++ OpsCheck.b2s (mon_C11 o) ++ " C08=" ++ OpsCheck.b2s (mon_C08 o) ++ " code=" ++ (if exit_zero o then "0" else "nz") ++
    " kids=" ++ N2s (N.of_nat (n_started o)) ++ " END").
